@@ -71,13 +71,28 @@ CASE_ROOTS = {"Project": ["project", "PROJECT"], STRASSE_ROOT: ["STRASSE", "stra
               "croot": ["CRoot"]}
 FILE_PATTERN = re.compile(r"(?!~\$).*\.(csv|xlsx)$", re.IGNORECASE)   # make_loader default (compared via API runs)
 DECOYS = ["/etc/passwd", "/etc/hostname"]
-NONEX = ["nope", "ghost.csv", "zz"]
+NONEX = ["nope", "ghost.csv", "zz", "nope", "ghost.csv", "zz", "\U0001F600.csv", "a\x85b.csv", "x\u2028y", "\ufeffq.csv",
+         "\U00020000", "v\x0bw\x1c.csv"]
 RESOLVE_FUEL = 600
 LOOP_FUEL = 400
 
 # --------------------------------------------------------------------------- audit hook (one per process)
 
 _AUDIT = {"installed": False, "active": False, "prefix": None, "events": [], "cwd": "/", "allow": []}
+
+
+class _Event(tuple):
+    """(kind, path as given) with the real path at the time of the access in `.rp`"""
+    rp = None
+
+
+def _real_now(p):
+    for _ in range(5):
+        q = os.path.realpath(p)
+        if q == p:
+            break
+        p = q
+    return p
 
 
 def _hook(event, args):
@@ -95,8 +110,14 @@ def _hook(event, args):
         except Exception:      # noqa
             return
         ap = p if p.startswith("/") else st["cwd"].rstrip("/") + "/" + p
-        # EVERY event of the window is recorded, wherever it points; the allow-list is applied afterwards
-        st["events"].append(("open" if event == "open" else "listdir", ap))
+        # EVERY event of the window is recorded, wherever it points; the allow-list is applied afterwards.
+        # The real path is taken NOW (the tree may be edited later, even during the same load)
+        e = _Event(("open" if event == "open" else "listdir", ap))
+        try:
+            e.rp = _real_now(ap)
+        except Exception:      # noqa
+            e.rp = None
+        st["events"].append(e)
 
 
 def _allow_list(T):
@@ -147,15 +168,13 @@ class _Watch:
         _AUDIT["active"] = False
         ev, allow, T = _AUDIT["events"], _AUDIT["allow"], self.T
         keep = []
-        for k, ap in ev:
+        for e in ev:
+            k, ap = e
             if not inside(ap, T):
-                try:
-                    rp = os.path.realpath(ap)
-                except Exception:      # noqa
-                    rp = ap
+                rp = e.rp or ap
                 if not inside(rp, T) and any(inside(rp, a) for a in allow):
                     continue
-            keep.append((k, ap))
+            keep.append(e)
         ev[:] = keep
 
 
@@ -163,6 +182,39 @@ class _Watch:
 
 def _table(name):
     return f"**{name};\nall\nx\n-\n1\n\n"
+
+
+DEPTH_LADDER = [1, 2, 8, 31, 32, 33, 40, 64, 100]
+
+
+def depth_ladder(T):
+    """folder levels below `outside/dd` resp. `root/di`: the ladder, plus the levels at which the ABSOLUTE depth of
+    the file (segments from `/`) is 31, 32, 33, 63, 64, 65"""
+    base = len([x for x in T.split("/") if x]) + 2          # T/outside/dd  resp.  T/root/di
+    extra = [a - base - 1 for a in (31, 32, 33, 63, 64, 65)] + [a - base for a in (31, 32, 33)]
+    return sorted({k for k in DEPTH_LADDER + extra if 1 <= k <= 100})
+
+
+def depth_spec(rng, T, rooted_only=True, up=None):
+    """a specification aimed at a ladder depth: outside through `..`, through an absolute prefix, through a symlink;
+    inside; deep inside and out again; deep outside and in again.  `up` = the `../` prefix that leads from the
+    including folder to the root's parent (relative forms)"""
+    k = rng.choice(depth_ladder(T))
+    chain = "d/" * k
+    leaf = rng.choice(["x.csv", "x.csv", ""])
+    forms = ["/../outside/dd/" + chain + leaf, "/" + T + "/outside/dd/" + chain + leaf, "/lo%d/" % k + leaf,
+             "/di/" + chain + leaf, "/di/" + "d/" * 40 + "lnout/secret.csv", "/di/" + "d/" * 40 + "lnout",
+             "/lo40/lnin/a.csv", "/lo40/lnin/di/" + chain + leaf, "/di/" + "d/" * 33 + "lnrel/x.csv",
+             "/di/" + chain + "../" * (k + 2) + "outside/dd/" + chain + leaf,
+             "/../outside/dd/" + chain + "../" * k + "../../root/di/" + chain + leaf]
+    if not rooted_only and up is not None:
+        forms += [up + "outside/dd/" + chain + leaf, up + "root/di/" + chain + leaf, "di/" + chain + leaf]
+    spec = rng.choice(forms)
+    if spec[:1] == "/" and rng.random() < 0.15:
+        spec = "\\" + spec[1:]
+    if rng.random() < 0.2:
+        spec = rng.choice(["file:", "FILE:"]) + spec
+    return spec.rstrip("/") if spec.rstrip("/") else "/", ["depth", "depth:%d" % k, "has:.."]
 
 
 def build_tree():
@@ -201,6 +253,11 @@ def build_tree():
     f("croot/sub/m.csv")
     f("root2/m.csv")
     f("outside/u.csv")
+    # depth ladder: one chain of 100 one-letter folders outside the root and one inside, a file at every ladder
+    # depth; symlinks from the root to each outside ladder folder, from deep inside out and from deep outside in
+    for k in depth_ladder(T):
+        f("outside/dd/" + "d/" * k + "x.csv")
+        f("root/di/" + "d/" * k + "x.csv")
     # case-variant siblings: next to each root a folder whose name differs from the root's only in letter case
     # (for non-ASCII: only after case folding), holding files; roots whose own name has mixed case
     f("Root/a.csv"); f("ROOT/a.csv"); f("CRoot/m.csv")
@@ -240,6 +297,10 @@ def build_tree():
         ("outside/ln_back", "../root"),
         ("outside/ln_back_file.csv", "../root/a.csv"),
         ("rootlink", "root"),
+    ] + [("root/lo%d" % k, os.path.join(T, "outside/dd/" + "d/" * k).rstrip("/")) for k in depth_ladder(T)] + [
+        ("root/di/" + "d/" * 40 + "lnout", os.path.join(T, "outside")),
+        ("root/di/" + "d/" * 33 + "lnrel", "../" * 35 + "outside/dd/" + "d/" * 33),
+        ("outside/dd/" + "d/" * 40 + "lnin", os.path.join(T, "root")),
         ("root/ln_case", "../Root"), ("root/ln_case_file.csv", "../ROOT/a.csv"), ("Root/ln_back", "../root"),
         ("Project/ln_sib", "../project"), ("Project/ln_sib_file.csv", "../PROJECT/p.csv"),
         ("Project/ln_in", "sub"), ("project/ln_back", "../Project"), ("project/ln_back_file.csv", "../Project/p.csv"),
@@ -294,11 +355,20 @@ def include_lines(path):
 
 
 def snapshot_world(T):
+    """what is where, for the model: folders, readable files, other files, and what each location pushes.
+    The deep chain below `outside/dd` is left out: it is outside every root used, so the model (which refuses
+    such paths before looking at them) never asks about it — any disagreement still shows as a mismatch."""
     dirs, files, unsup, entries = [], [], [], []
+    skip = T + "/outside/dd/d"
     for d, ds, fs in os.walk(T, followlinks=False):
+        if inside(d, skip):
+            ds[:] = []
+            continue
         if not os.path.islink(d):
             dirs.append(d)
-            entries.append([d, [n for n in os.listdir(d) if FILE_PATTERN.match(n)]])
+            names = [n for n in os.listdir(d) if FILE_PATTERN.match(n)]
+            if names:
+                entries.append([d, names])
         for n in fs:
             p = os.path.join(d, n)
             if os.path.islink(p):
@@ -311,6 +381,24 @@ def snapshot_world(T):
             else:
                 unsup.append(p)
     return {"dirs": dirs, "files": files, "unsupported": unsup, "entries": entries}
+
+
+def world_plus(base, created):
+    """the world after the files `created` were added to a tree whose snapshot is `base`"""
+    if not created:
+        return base
+    folders = {os.path.dirname(p) for p in created}
+    entries = [e for e in base["entries"] if e[0] not in folders and e[0] not in created]
+    for d in sorted(folders):
+        names = [n for n in os.listdir(d) if FILE_PATTERN.match(n)]
+        if names:
+            entries.append([d, names])
+    for p in created:
+        inc = include_lines(p)
+        if inc:
+            entries.append([p, inc])
+    return {"dirs": base["dirs"], "files": base["files"] + list(created), "unsupported": base["unsupported"],
+            "entries": entries}
 
 
 # --------------------------------------------------------------------------- hostile-path grammar
@@ -471,7 +559,24 @@ def inside(p, root):
 
 
 def tok(s, T):
-    return s.replace(T, "$T") if isinstance(s, str) else s
+    """scratch-dir independent form of a string / nested structure (the directory name differs between runs)"""
+    if isinstance(s, str):
+        return s.replace(T, "$T").replace(os.path.basename(T), "$B")
+    if isinstance(s, (list, tuple)):
+        return [tok(x, T) for x in s]
+    if isinstance(s, dict):
+        return {k: tok(v, T) for k, v in s.items()}
+    return s
+
+
+def untok(s, T):
+    if isinstance(s, str):
+        return s.replace("$T", T).replace("$B", os.path.basename(T))
+    if isinstance(s, (list, tuple)):
+        return [untok(x, T) for x in s]
+    if isinstance(s, dict):
+        return {k: untok(v, T) for k, v in s.items()}
+    return s
 
 
 # --------------------------------------------------------------------------- implementation calls
@@ -529,7 +634,7 @@ def mem_loader(lines):
     return MemLoader()
 
 
-def impl_load(T, root_arg, roots, raising, protocol_loaders=None):
+def impl_load(T, root_arg, roots, raising, protocol_loaders=None, after_first_table=None):
     from pdtable import load_files, BlockType
     from pdtable.io.load import LoadError
     from pdtable.table_origin import InputIssueTracker, InputError
@@ -562,6 +667,8 @@ def impl_load(T, root_arg, roots, raising, protocol_loaders=None):
                                         additional_protocol_loaders=protocol_loaders):
                     if bt == BlockType.TABLE:
                         tables.append(b.name)
+                        if after_first_table is not None and len(tables) == 1:
+                            after_first_table()          # the consumer edits the tree while the load is suspended
             end = "done"
         except LoadError:
             end = {"exc": "LoadError"}
@@ -757,61 +864,73 @@ def _function_cases(rng, T, seed, fs, n, ops, pend, out, model_ok):
     for idx in range(n):
         rng = make_rng(seed, f"C17:fn:{idx}")
         rk = rng.choice(ROOT_CFGS)
-        root = make_root(rk, T)
         src = rng.choice(srcs[:5]) if rng.random() < 0.85 else rng.choice(srcs)
         if rk in ("canon_project", "canon_strasse", "case_alias"):
             src = rng.choice([None, make_root(rk if rk != "case_alias" else "canon_project", T),
                               make_root(rk if rk != "case_alias" else "canon_project", T) + "/sub"])
-        spec, tags = gen_spec(rng, T, None if src is None else os.path.realpath(src))
+        if idx % 40 == 7:
+            spec, tags = depth_spec(rng, T, rooted_only=src is None)
+        else:
+            spec, tags = gen_spec(rng, T, None if src is None else os.path.realpath(src))
         null_folder = src is None and rng.random() < 0.2
-        case = {"level": "function", "seed": seed, "index": idx, "root_cfg": rk, "root": tok(root, T),
-                "spec": tok(spec, T), "src": tok(src, T), "tags": tags}
-        with _Watch(T) as events:
-            impl = impl_resolve(root, spec, src, null_folder)
-        events = list(events)
-        key = ("ok" if "ok" in impl else impl["exc"])
-        out.count("fn:" + rk.split("_")[0] + ":" + key)
-        for t in tags:
-            out.count("tag:" + t)
-        hostile = bool(tags and set(tags) - {"plain", "rooted", "relative"}) or "exc" in impl
-        out.case(case, nontrivial=hostile)
-        # ---- oracle
-        if events:
-            out.fail("_resolve_load_item_path opened or listed something", case, events, [], key="fn:access")
-        if rk in CANON_ROOTS:
-            canon_root = T + CANON_ROOTS[rk]
-            want = intended(canon_root, spec, src if src is None else os.path.abspath(src))
-            if "ok" in impl:
-                rp = real_target(impl["ok"])
-                if not inside(rp, canon_root):
-                    known = want[0] == "partial"
-                    out.count("fn:escape" + (":after-loop" if known else ""))
-                    if not known or out.dist["fn:escape:after-loop"] <= 3:
-                        out.fail("accepted specification resolves outside the root", case,
-                                 [tok(impl["ok"], T), tok(rp, T)], "LoadError",
-                                 key=PARTIAL_KEY if known else "fn:escape")
-                elif want[0] == "path" and want[1] != impl["ok"]:
-                    out.fail("accepted specification resolved to another path than its target", case,
-                             tok(impl["ok"], T), tok(want[1], T), key="fn:wrong-target")
-            if want[0] == "path" and inside(want[1], canon_root) and "ok" not in impl:
-                out.fail("specification whose target is inside the root was refused", case, impl,
-                         tok(want[1], T), key="fn:refused-inside")
-            if (want[0] in ("none", "invalid") or (want[0] == "path" and not inside(want[1], canon_root))) \
-                    and impl != {"exc": "LoadError"}:
-                out.fail("specification whose target is outside the root (or is no path at all) was not a "
-                         "LoadError", case, {k: tok(v, T) for k, v in impl.items()}, "LoadError",
-                         key=NUL_KEY if want[0] == "invalid" else "fn:not-refused")
-            out.count("want:" + want[0] + (":in" if want[0] == "path" and inside(want[1], canon_root) else
-                                           ":out" if want[0] == "path" else ""))
-            case["want"] = want[0]
-        if model_ok:
-            ops.append({"op": "pathres_resolve_item", "root": root, "spec": spec, "src": src, "fs": fs})
-            pend.append(("_resolve_load_item_path vs resolveLoadItem", case, impl, lambda a: a["res"]))
+        case = {"level": "function", "seed": seed, "index": idx, "root_cfg": rk, "root": tok(make_root(rk, T), T),
+                "spec": tok(spec, T), "src": tok(src, T), "null_folder": null_folder, "tags": tags}
+        _exec_function(T, fs, case, out, ops, pend, model_ok)
+
+
+def _exec_function(T, fs, case, out, ops, pend, model_ok):
+    """one function-level case, from its record alone (cwd must be the scratch dir): the real
+    `_resolve_load_item_path`, the oracle, and the model operation"""
+    rk, tags = case["root_cfg"], case.get("tags", [])
+    root = make_root(rk, T)
+    spec, src, null_folder = untok(case["spec"], T), untok(case["src"], T), case.get("null_folder", False)
+    with _Watch(T) as events:
+        impl = impl_resolve(root, spec, src, null_folder)
+    events = list(events)
+    key = ("ok" if "ok" in impl else impl["exc"])
+    out.count("fn:" + rk.split("_")[0] + ":" + key)
+    for t in tags:
+        out.count("tag:" + t)
+    hostile = bool(tags and set(tags) - {"plain", "rooted", "relative"}) or "exc" in impl
+    out.case(case, nontrivial=hostile)
+    # ---- oracle
+    if events:
+        out.fail("_resolve_load_item_path opened or listed something", case, events, [], key="fn:access")
+    if rk in CANON_ROOTS:
+        canon_root = T + CANON_ROOTS[rk]
+        want = intended(canon_root, spec, src if src is None else os.path.abspath(src))
+        if "ok" in impl:
+            rp = real_target(impl["ok"])
+            if not inside(rp, canon_root):
+                known = want[0] == "partial"
+                out.count("fn:escape" + (":after-loop" if known else ""))
+                if not known or out.dist["fn:escape:after-loop"] <= 3:
+                    out.fail("accepted specification resolves outside the root", case,
+                             [tok(impl["ok"], T), tok(rp, T)], "LoadError",
+                             key=PARTIAL_KEY if known else "fn:escape")
+            elif want[0] == "path" and want[1] != impl["ok"]:
+                out.fail("accepted specification resolved to another path than its target", case,
+                         tok(impl["ok"], T), tok(want[1], T), key="fn:wrong-target")
+        if want[0] == "path" and inside(want[1], canon_root) and "ok" not in impl:
+            out.fail("specification whose target is inside the root was refused", case, impl,
+                     tok(want[1], T), key="fn:refused-inside")
+        if (want[0] in ("none", "invalid") or (want[0] == "path" and not inside(want[1], canon_root))) \
+                and impl != {"exc": "LoadError"}:
+            out.fail("specification whose target is outside the root (or is no path at all) was not a "
+                     "LoadError", case, {k: tok(v, T) for k, v in impl.items()}, "LoadError",
+                     key=NUL_KEY if want[0] == "invalid" else "fn:not-refused")
+        out.count("want:" + want[0] + (":in" if want[0] == "path" and inside(want[1], canon_root) else
+                                       ":out" if want[0] == "path" else ""))
+        case["want"] = want[0]
+    if model_ok:
+        ops.append({"op": "pathres_resolve_item", "root": root, "spec": spec, "src": src, "fs": fs})
+        pend.append(("_resolve_load_item_path vs resolveLoadItem", case, impl, lambda a: a["res"]))
 
 
 PLACEMENTS = ["root_item", "root_item", "include_root", "include_root", "include_nested", "include_nested",
               "include_via_link", "default_roots", "folder_then_include", "folder_then_include", "folder_then_item",
-              "include_root_folder_then_hostile", "include_xlsx", "include_mem", "case_sibling", "case_sibling"]
+              "include_root_folder_then_hostile", "include_xlsx", "include_mem", "case_sibling", "case_sibling",
+              "depth", "depth", "empty_roots"]
 
 # specifications aimed at entries directly in the PARENT of the root folder (file and folder), and deeper ones;
 # `$T` is replaced by the scratch directory.  Relative forms are for a file at the top level of the root.
@@ -831,8 +950,9 @@ def _judge_load(out, case, T, root, spec, planted_src, raising, end, events, got
     # ---- oracle 1: nothing outside the root is opened or listed
     want = ("none",) if planted_src == "unplantable" else intended(root, spec, planted_src)
     case["want"] = want[0]
-    for k, p in events:
-        rp = real_target(p)
+    for ev in events:
+        k, p = ev
+        rp = getattr(ev, "rp", None) or real_target(p)
         if not inside(rp, root):
             known = want[0] == "partial"
             out.count("api:outside-access" + (":after-loop" if known else ""))
@@ -876,8 +996,7 @@ def _judge_load(out, case, T, root, spec, planted_src, raising, end, events, got
 
 
 def _api_cases(rng, T, tables, seed, fs, n, ops, pend, out, model_ok):
-    root = T + "/root"
-    static_world = None
+    _WORLD_BASE.clear()
     for idx in range(n):
         rng = make_rng(seed, f"C17:api:{idx}")
         placement = rng.choice(PLACEMENTS)
@@ -893,164 +1012,192 @@ def _api_cases(rng, T, tables, seed, fs, n, ops, pend, out, model_ok):
             # these runs load some file twice (as listed child and as item): a raising tracker would stop at the
             # duplicate report before the planted specification is reached
             raising = False
-        root_arg = root if rng.random() < 0.6 else Path(root)
-        created = []
-        protocol_loaders, mem_lines = None, None
-        try:
-            if placement in ("folder_then_include", "include_root_folder_then_hostile"):
-                # state carried across the items of ONE load: the root folder itself is an item first, a hostile
-                # specification aimed at the root's parent comes later, from a file at the top level of the root
-                spec = rng.choice(PARENT_TARGETS_ROOTED + PARENT_TARGETS_RELATIVE).replace("$T", T)
-                tags = ["parent-target", "has:.."]
-                inc = os.path.join(root, f"inc{idx}.csv")
-                benign = rng.choice(["m.csv", "/sub/n.csv", "/sub", "sub"])
-                if placement == "folder_then_include":
-                    lines = rng.choice([[spec], [benign, spec], [spec, benign]])
-                    roots = rng.choice([None, ["/"], ["/."], ["\\"], ["file:/"], ["/sub", "/"], ["/", "/sub"]])
-                else:
-                    # the including file is the root item; its last include line (processed first) is the root folder
-                    lines = [spec, rng.choice(["/", ".", "/sub/..", "\\"])]
-                    roots = [f"/inc{idx}.csv"]
-                with open(inc, "w", encoding="utf-8") as fh:
-                    fh.write(_table(f"t_inc{idx}") + "***include;\n" + "\n".join(lines) + "\n\n")
-                created.append(inc)
-                planted_src = root
-                if spec not in include_lines(inc):
-                    out.count("api:not-plantable")
-                    planted_src = "unplantable"
-            elif placement == "case_sibling":
-                # a sibling of the root whose name differs only in letter case (or only before case folding) is
-                # OUTSIDE the root on a case-sensitive file system: aimed at from a root item, from an include in a
-                # top-level or nested file, directly or through an outward symlink; also the way back in
-                sib = rng.choice(CASE_ROOTS[case_root])
-                fname = {"root": "a.csv", "croot": "m.csv"}.get(case_root, "p.csv")
-                where = rng.choice(["root_item", "include_root", "include_nested"])
-                rooted = ["/../" + sib + "/" + fname, "/../" + sib, "file:/../" + sib + "/" + fname,
-                          "\\../" + sib + "/" + fname, "/" + T + "/" + sib + "/" + fname, "/../" + sib + "/../" + sib,
-                          "/../" + sib + "/../" + case_root + "/" + fname, "/" + fname, "/sub/../../" + sib]
-                if case_root in ("Project", STRASSE_ROOT):
-                    rooted += ["/ln_sib/p.csv", "/ln_sib", "/ln_sib_file.csv", "/ln_sib/ln_back/p.csv"]
-                if case_root == "root":
-                    rooted += ["/ln_case/a.csv", "/ln_case", "/ln_case_file.csv", "/ln_case/ln_back/a.csv"]
-                tags = ["case-sibling", "has:.."]
-                if where == "root_item":
-                    spec = rng.choice(rooted)
-                    roots, planted_src = [spec], None
-                else:
-                    folder = root if where == "include_root" else root + "/sub"
-                    up = "../" if where == "include_root" else "../../"
-                    spec = rng.choice(rooted + [up + sib + "/" + fname, up + sib, "file:" + up + sib + "/" + fname,
-                                                up + sib + "/../" + case_root + "/" + fname])
-                    inc = os.path.join(folder, f"inc{idx}.csv")
-                    with open(inc, "w", encoding="utf-8") as fh:
-                        fh.write(_table(f"t_inc{idx}") + "***include;\n" + spec + "\n\n")
-                    created.append(inc)
-                    roots = [f"/inc{idx}.csv" if where == "include_root" else f"/sub/inc{idx}.csv"]
-                    planted_src = folder
-                    if spec not in include_lines(inc):
-                        out.count("api:not-plantable")
-                        planted_src = "unplantable"
-                tags.append(where)
-            elif placement == "include_xlsx":
-                # the including location is a sheet block of a workbook at the top level of the root
-                spec, tags = gen_spec(rng, T, root)
-                inc = os.path.join(root, f"inc{idx}.xlsx")
-                benign = rng.choice(["/sub/c.csv", "a.csv", "/UP.CSV"])
-                lines = [benign, spec] if rng.random() < 0.7 else [spec, benign]
-                try:
-                    write_xlsx_include(inc, f"t_inc{idx}", lines)
-                except Exception:      # noqa  (openpyxl refuses control characters in a cell)
-                    spec, tags = "/ln_out_dir/secret.csv", ["has:ln_", "xlsx-fallback"]
-                    lines = [benign, spec]
-                    write_xlsx_include(inc, f"t_inc{idx}", lines)
-                created.append(inc)
-                tags = tags + ["xlsx"]
-                roots = [f"/inc{idx}.xlsx"]
-                planted_src = root
-                if spec not in include_lines(inc):
-                    out.count("api:not-plantable")
-                    planted_src = "unplantable"
-            elif placement == "include_mem":
-                # the including location has no local folder (`local_folder_path is None`): a `mem:` protocol source
-                spec, tags = gen_spec(rng, T, None)
-                benign = rng.choice(["/sub/c.csv", "/a.csv", "/UP.CSV", "file:/b.csv"])
-                mem_lines = [benign, spec] if rng.random() < 0.7 else [spec, benign]
-                protocol_loaders = {"mem": mem_loader(mem_lines)}
-                tags = tags + ["mem"]
-                roots = ["mem:x"]
-                planted_src = None
-                if spec.lower().startswith("mem:"):
-                    planted_src = "unplantable"
-            elif placement == "folder_then_item":
-                # two root items: a folder is processed first (it is LAST in the list: pop() takes from the end),
-                # then a specification aimed at that folder's parent
-                spec = rng.choice(PARENT_TARGETS_ROOTED).replace("$T", T)
-                tags = ["parent-target", "has:.."]
-                roots = [spec, rng.choice(["/", "/", "/.", "/sub", "/sub/..", "file:/"])]
-                planted_src = None
-            elif placement == "root_item":
-                spec, tags = gen_spec(rng, T, None)
-                roots = [spec] if rng.random() < 0.7 else ["/a.csv", spec]
-                planted_src = None
-            elif placement == "witness":
-                # the Lean negation witness (Props/C17.lean `py312_escape_witness`) replayed on the real code
-                spec, tags, roots, planted_src = "/loop/../ln_out_dir/secret.csv", ["witness", "has:loop"], None, None
-                roots = [spec]
-            elif placement == "default_roots":
-                spec, tags, roots, planted_src = "/", ["default"], None, None
+        root_as = "str" if rng.random() < 0.6 else "PosixPath"
+        csv_files, xlsx_files = [], []          # [path, content] / [path, table name, include lines]
+        protocol, mem_lines, plant_file = None, None, None
+
+        def inc_csv(path, name, lines):
+            csv_files.append([path, _table(name) + "***include;\n" + "\n".join(lines) + "\n\n"])
+
+        if placement in ("folder_then_include", "include_root_folder_then_hostile"):
+            # state carried across the items of ONE load: the root folder itself is an item first, a hostile
+            # specification aimed at the root's parent comes later, from a file at the top level of the root
+            spec = rng.choice(PARENT_TARGETS_ROOTED + PARENT_TARGETS_RELATIVE).replace("$T", T)
+            tags = ["parent-target", "has:.."]
+            inc = os.path.join(root, f"inc{idx}.csv")
+            benign = rng.choice(["m.csv", "/sub/n.csv", "/sub", "sub"])
+            if placement == "folder_then_include":
+                lines = rng.choice([[spec], [benign, spec], [spec, benign]])
+                roots = rng.choice([None, ["/"], ["/."], ["\\"], ["file:/"], ["/sub", "/"], ["/", "/sub"]])
             else:
-                folder = {"include_root": root, "include_nested": root + "/sub/deep",
-                          "include_via_link": root + "/sub/deep"}[placement]
-                spec, tags = gen_spec(rng, T, folder)
-                if not spec.strip() or ";" in spec or "\n" in spec:
-                    spec, tags = "/a.csv", ["plain"]
+                # the including file is the root item; its last include line (processed first) is the root folder
+                lines = [spec, rng.choice(["/", ".", "/sub/..", "\\"])]
+                roots = [f"/inc{idx}.csv"]
+            inc_csv(inc, f"t_inc{idx}", lines)
+            planted_src, plant_file = root, inc
+        elif placement == "case_sibling":
+            # a sibling of the root whose name differs only in letter case (or only before case folding) is
+            # OUTSIDE the root on a case-sensitive file system: aimed at from a root item, from an include in a
+            # top-level or nested file, directly or through an outward symlink; also the way back in
+            sib = rng.choice(CASE_ROOTS[case_root])
+            fname = {"root": "a.csv", "croot": "m.csv"}.get(case_root, "p.csv")
+            where = rng.choice(["root_item", "include_root", "include_nested"])
+            rooted = ["/../" + sib + "/" + fname, "/../" + sib, "file:/../" + sib + "/" + fname,
+                      "\\../" + sib + "/" + fname, "/" + T + "/" + sib + "/" + fname, "/../" + sib + "/../" + sib,
+                      "/../" + sib + "/../" + case_root + "/" + fname, "/" + fname, "/sub/../../" + sib]
+            if case_root in ("Project", STRASSE_ROOT):
+                rooted += ["/ln_sib/p.csv", "/ln_sib", "/ln_sib_file.csv", "/ln_sib/ln_back/p.csv"]
+            if case_root == "root":
+                rooted += ["/ln_case/a.csv", "/ln_case", "/ln_case_file.csv", "/ln_case/ln_back/a.csv"]
+            tags = ["case-sibling", "has:..", where]
+            if where == "root_item":
+                spec = rng.choice(rooted)
+                roots, planted_src = [spec], None
+            else:
+                folder = root if where == "include_root" else root + "/sub"
+                up = "../" if where == "include_root" else "../../"
+                spec = rng.choice(rooted + [up + sib + "/" + fname, up + sib, "file:" + up + sib + "/" + fname,
+                                            up + sib + "/../" + case_root + "/" + fname])
                 inc = os.path.join(folder, f"inc{idx}.csv")
-                benign = rng.choice(["/sub/c.csv", "e.csv" if folder != root else "a.csv", "/UP.CSV"])
-                lines = [benign, spec] if rng.random() < 0.7 else [spec, benign]
-                with open(inc, "w", encoding="utf-8") as fh:
-                    fh.write(_table(f"t_inc{idx}") + "***include;\n" + "\n".join(lines) + "\n\n")
-                created.append(inc)
-                tables_inc = f"t_inc{idx}"
-                if placement == "include_root":
-                    roots = [f"/inc{idx}.csv"]
-                elif placement == "include_nested":
-                    top = os.path.join(root, f"top{idx}.csv")
-                    with open(top, "w", encoding="utf-8") as fh:
-                        fh.write(_table(f"t_top{idx}") + f"***include;\nsub/deep/inc{idx}.csv\n\n")
-                    created.append(top)
-                    roots = [f"/top{idx}.csv"]
-                else:
-                    roots = [f"/ln_in_abs/inc{idx}.csv"]        # the including file is reached through a symlinked folder
-                planted_src = folder
-                if spec not in include_lines(inc):
-                    out.count("api:not-plantable")
-                    planted_src = "unplantable"
-            case = {"level": "api", "seed": seed, "index": idx, "placement": placement, "spec": tok(spec, T),
-                    "roots": [tok(r, T) for r in roots] if roots is not None else None, "raising_tracker": raising,
-                    "root_as": type(root_arg).__name__, "tags": tags}
-            end, events, got_tables, refused = impl_load(T, root_arg, roots, raising, protocol_loaders)
-            evs = [[k, p] for k, p in events]
-            out.count("api:" + placement + ":" + (end if isinstance(end, str) else end["exc"]))
-            hostile = bool(set(tags) - {"plain", "rooted", "relative", "default"}) or end != "done"
-            out.case(case, nontrivial=hostile)
-            _judge_load(out, case, T, root, spec, planted_src, raising, end, events, got_tables, refused, tables)
-            if model_ok:
-                world = snapshot_world(T)
-                # a `mem:` source opens nothing and has no folder: its include lines are items without a source,
-                # pushed in order — exactly what root items are in the model
-                ops.append({"op": "pathres_load", "root": str(root_arg),
-                            "roots": mem_lines if mem_lines is not None else roots, "fs": fs, "world": world,
-                            "tracker_raises": raising, "loop_fuel": LOOP_FUEL})
-                pend.append(("load_files vs loadFiles (end, open/listdir events in order)", case,
-                             {"end": end, "events": evs},
-                             lambda a: {"end": a["end"],
-                                        "events": [e[:2] for e in a["trace"] if e[0] in ("open", "listdir")]}))
-        finally:
-            for p in created:
-                try:
-                    os.remove(p)
-                except OSError:
-                    pass
+                inc_csv(inc, f"t_inc{idx}", [spec])
+                roots = [f"/inc{idx}.csv" if where == "include_root" else f"/sub/inc{idx}.csv"]
+                planted_src, plant_file = folder, inc
+        elif placement == "depth":
+            # depth ladder: targets 1 .. 100 folder levels deep, outside and inside, as root item and as include
+            where = rng.choice(["root_item", "include_root", "include_nested"])
+            folder = {"root_item": None, "include_root": root, "include_nested": root + "/sub/deep"}[where]
+            up = {"root_item": None, "include_root": "../", "include_nested": "../../../"}[where]
+            spec, tags = depth_spec(rng, T, rooted_only=folder is None, up=up)
+            tags = tags + [where]
+            if folder is None:
+                roots, planted_src = [spec], None
+            else:
+                inc = os.path.join(folder, f"inc{idx}.csv")
+                inc_csv(inc, f"t_inc{idx}", [spec])
+                roots = [f"/inc{idx}.csv" if where == "include_root" else f"/sub/deep/inc{idx}.csv"]
+                planted_src, plant_file = folder, inc
+        elif placement == "include_xlsx":
+            # the including location is a sheet block of a workbook at the top level of the root
+            spec, tags = gen_spec(rng, T, root)
+            if any(ord(ch) < 32 for ch in spec):          # openpyxl refuses control characters in a cell
+                spec, tags = "/ln_out_dir/secret.csv", ["has:ln_", "xlsx-fallback"]
+            inc = os.path.join(root, f"inc{idx}.xlsx")
+            benign = rng.choice(["/sub/c.csv", "a.csv", "/UP.CSV"])
+            lines = [benign, spec] if rng.random() < 0.7 else [spec, benign]
+            xlsx_files.append([inc, f"t_inc{idx}", lines])
+            tags = tags + ["xlsx"]
+            roots = [f"/inc{idx}.xlsx"]
+            planted_src, plant_file = root, inc
+        elif placement == "include_mem":
+            # the including location has no local folder (`local_folder_path is None`): a `mem:` protocol source
+            spec, tags = gen_spec(rng, T, None)
+            benign = rng.choice(["/sub/c.csv", "/a.csv", "/UP.CSV", "file:/b.csv"])
+            mem_lines = [benign, spec] if rng.random() < 0.7 else [spec, benign]
+            protocol = "mem"
+            tags = tags + ["mem"]
+            roots = ["mem:x"]
+            planted_src = "unplantable" if spec.lower().startswith("mem:") else None
+        elif placement == "folder_then_item":
+            # two root items: a folder is processed first (it is LAST in the list: pop() takes from the end),
+            # then a specification aimed at that folder's parent
+            spec = rng.choice(PARENT_TARGETS_ROOTED).replace("$T", T)
+            tags = ["parent-target", "has:.."]
+            roots = [spec, rng.choice(["/", "/", "/.", "/sub", "/sub/..", "file:/"])]
+            planted_src = None
+        elif placement == "root_item":
+            spec, tags = gen_spec(rng, T, None)
+            roots = [spec] if rng.random() < 0.7 else ["/a.csv", spec]
+            planted_src = None
+            if rng.random() < 0.15:
+                protocol = "empty"                # additional_protocol_loaders={} : an empty, caller-owned dict
+        elif placement == "empty_roots":
+            # empty (not None) containers: nothing is to be loaded, nothing may be touched
+            spec, tags, roots, planted_src = "", ["empty-roots"], [], "unplantable"
+            protocol = rng.choice([None, "empty"])
+        elif placement == "witness":
+            # the Lean negation witness (Props/C17.lean `prefix_escape_witness`) replayed on the real code
+            spec, tags, planted_src = "/loop/../ln_out_dir/secret.csv", ["witness", "has:loop"], None
+            roots = [spec]
+        elif placement == "default_roots":
+            spec, tags, roots, planted_src = "/", ["default"], None, None
+        else:
+            folder = {"include_root": root, "include_nested": root + "/sub/deep",
+                      "include_via_link": root + "/sub/deep"}[placement]
+            spec, tags = gen_spec(rng, T, folder)
+            if not spec.strip() or ";" in spec or "\n" in spec:
+                spec, tags = "/a.csv", ["plain"]
+            inc = os.path.join(folder, f"inc{idx}.csv")
+            benign = rng.choice(["/sub/c.csv", "e.csv" if folder != root else "a.csv", "/UP.CSV"])
+            lines = [benign, spec] if rng.random() < 0.7 else [spec, benign]
+            inc_csv(inc, f"t_inc{idx}", lines)
+            if placement == "include_root":
+                roots = [f"/inc{idx}.csv"]
+            elif placement == "include_nested":
+                inc_csv(os.path.join(root, f"top{idx}.csv"), f"t_top{idx}", [f"sub/deep/inc{idx}.csv"])
+                roots = [f"/top{idx}.csv"]
+            else:
+                roots = [f"/ln_in_abs/inc{idx}.csv"]        # the including file is reached through a symlinked folder
+            planted_src, plant_file = folder, inc
+        x = {"root": root, "root_as": root_as, "raising": raising, "roots": roots, "spec": spec,
+             "planted_src": planted_src, "plant_file": plant_file, "csv": csv_files, "xlsx": xlsx_files,
+             "protocol": protocol, "mem_lines": mem_lines}
+        case = {"level": "api", "seed": seed, "index": idx, "placement": placement, "spec": tok(spec, T),
+                "roots": tok(roots, T), "raising_tracker": raising, "root_as": root_as, "tags": tags,
+                "x": tok(x, T)}
+        _exec_api(T, tables, fs, case, out, ops, pend, model_ok)
+
+
+_WORLD_BASE = {}
+
+
+def _exec_api(T, tables, fs, case, out, ops, pend, model_ok):
+    """one API-level case from its record alone: write the including files, run `load_files` fully consumed under
+    the audit hook, judge, queue the model operation, remove the files again"""
+    x = untok(case["x"], T)
+    root, roots, spec, raising = x["root"], x["roots"], x["spec"], x["raising"]
+    planted_src, tags, placement = x["planted_src"], case.get("tags", []), case.get("placement", "?")
+    root_arg = root if x["root_as"] == "str" else Path(root)
+    protocol_loaders = {"mem": mem_loader(x["mem_lines"])} if x["protocol"] == "mem" else \
+        ({} if x["protocol"] == "empty" else None)
+    created = []
+    if model_ok and T not in _WORLD_BASE:      # the tree is static during the API stream apart from `created`
+        _WORLD_BASE[T] = snapshot_world(T)
+    try:
+        for path, content in x["csv"]:
+            with open(path, "w", encoding="utf-8", newline="") as fh:
+                fh.write(content)
+            created.append(path)
+        for path, name, lines in x["xlsx"]:
+            write_xlsx_include(path, name, lines)
+            created.append(path)
+        if x["plant_file"] is not None and spec not in include_lines(x["plant_file"]):
+            out.count("api:not-plantable")
+            planted_src = "unplantable"
+        end, events, got_tables, refused = impl_load(T, root_arg, roots, raising, protocol_loaders)
+        evs = [[k, p] for k, p in events]
+        out.count("api:" + placement + ":" + (end if isinstance(end, str) else end["exc"]))
+        hostile = bool(set(tags) - {"plain", "rooted", "relative", "default"}) or end != "done"
+        out.case(case, nontrivial=hostile)
+        _judge_load(out, case, T, root, spec, planted_src, raising, end, events, got_tables, refused, tables)
+        if x["protocol"] == "empty" and protocol_loaders != {}:
+            out.count("api:caller-dict-changed")
+        if model_ok:
+            world = world_plus(_WORLD_BASE[T], created)
+            # a `mem:` source opens nothing and has no folder: its include lines are items without a source,
+            # pushed in order — exactly what root items are in the model
+            ops.append({"op": "pathres_load", "root": str(root_arg),
+                        "roots": x["mem_lines"] if x["mem_lines"] is not None else roots, "fs": fs, "world": world,
+                        "tracker_raises": raising, "loop_fuel": LOOP_FUEL})
+            pend.append(("load_files vs loadFiles (end, open/listdir events in order)", case,
+                         {"end": end, "events": evs},
+                         lambda a: {"end": a["end"],
+                                    "events": [e[:2] for e in a["trace"] if e[0] in ("open", "listdir")]}))
+    finally:
+        for p in created:
+            try:
+                os.remove(p)
+            except OSError:
+                pass
 
 
 # --------------------------------------------------------------------------- histories: the tree is edited between loads
@@ -1093,13 +1240,7 @@ def _set_slot(T, htables, slot, state):
         htables[p] = "t_hin_f"
 
 
-def _history_cases(T, seed, n, ops, pend, out, model_ok):
-    """state carried across calls in ONE process: the same specifications are loaded again and again while the
-    scratch tree is edited between the loads (folder -> outward symlink, file -> outward symlink, symlink
-    retargeted inside -> outside and back).  Every call is judged on its own, with the tree as it is at that call:
-    real path of every opened / listed path, refusal of what now lies outside, loading of what now lies inside;
-    and compared with the model over the symlink map and world observed at that call."""
-    root = T + "/hroot"
+def _history_setup(T):
     htables = {}
 
     def put(rel, name, extra=""):
@@ -1113,52 +1254,92 @@ def _history_cases(T, seed, n, ops, pend, out, model_ok):
     put("hroot/top.csv", "t_hin_top", "***include;\nf.csv\nsub/a.csv\n\n")
     put("hout/sub/a.csv", "t_hout_sub_a")
     put("hout/x.csv", "t_hout_x")
-    state = {}
+    return htables
+
+
+def _history_cases(T, seed, n, ops, pend, out, model_ok):
+    """state carried across calls in ONE process: the same specifications are loaded again and again while the
+    scratch tree is edited between the loads (folder -> outward symlink, file -> outward symlink, symlink
+    retargeted inside -> outside and back), and sometimes WHILE a load is suspended at a block it has yielded.
+    Every call is judged on its own: real path of every opened / listed path at the time of the access, refusal
+    of what lies outside, loading of what lies inside; and compared with the model over the symlink map and world
+    observed at that call.  A history is a script (edits and calls) that is executed from its record alone."""
+    htables = _history_setup(T)
     for h in range(n):
         rng = make_rng(seed, f"C17:hist:{h}")
         n_steps = rng.choice([3, 4, 5])
         specs = rng.sample(H_SPECS, rng.choice([2, 3, 4]))
         if h == 0:
             specs = ["/sub/a.csv", "/sub", "/f.csv"]
-        raising = rng.random() < 0.25
+        script = {"raising": rng.random() < 0.25, "specs": specs, "steps": []}
         for step in range(n_steps):
-            # ---- edit
-            edits = {}
-            for slot in H_SLOTS:
-                if slot not in state or rng.random() < 0.6:
-                    edits[slot] = rng.choice(sorted(H_SLOTS[slot]))
+            edits = {slot: rng.choice(sorted(H_SLOTS[slot])) for slot in H_SLOTS}
+            if step and rng.random() < 0.4:
+                keep = rng.choice(sorted(H_SLOTS))
+                edits[keep] = script["steps"][-1]["edits"][keep]
             if h == 0:
                 edits = {"sub": ["dir", "link_out", "dir", "link_out_abs", "link_in"][step % 5],
                          "f.csv": ["file", "link_out", "link_in", "file", "link_out"][step % 5],
                          "ln": ["link_in", "link_out", "link_in_abs", "link_out", "link_in"][step % 5]}
-            for slot, st in edits.items():
-                if state.get(slot) != st:
-                    out.count(f"hist:edit:{slot}:{state.get(slot)}->{st}")
-                _set_slot(T, htables, slot, st)
-                state[slot] = st
-            fs = snapshot_fs(T, DECOYS)
-            world = snapshot_world(T) if model_ok else None
-            # ---- the same loads again
-            calls = [[sp] for sp in specs]
+            calls = [{"roots": [sp]} for sp in specs]
             if rng.random() < 0.3:
-                calls.append(list(specs))
-            for j, roots in enumerate(calls):
-                spec = roots[-1]                      # processed first
-                root_arg = root if (h + j) % 2 else Path(root)
-                case = {"level": "history", "seed": seed, "index": h, "step": step, "load": j,
-                        "tree": dict(state), "roots": roots, "spec": spec, "raising_tracker": raising,
-                        "specs_of_history": specs}
-                end, events, got_tables, refused = impl_load(T, root_arg, roots, raising)
-                out.count("hist:" + (end if isinstance(end, str) else end["exc"]))
-                out.case(case, nontrivial=step > 0)
-                _judge_load(out, case, T, root, spec, None, raising, end, events, got_tables, refused, htables)
-                if model_ok:
-                    ops.append({"op": "pathres_load", "root": str(root_arg), "roots": roots, "fs": fs, "world": world,
-                                "tracker_raises": raising, "loop_fuel": LOOP_FUEL})
-                    pend.append(("load_files vs loadFiles after tree edits (end, open/listdir events in order)", case,
-                                 {"end": end, "events": [[k, q] for k, q in events]},
-                                 lambda a: {"end": a["end"],
-                                            "events": [e[:2] for e in a["trace"] if e[0] in ("open", "listdir")]}))
+                calls.append({"roots": list(specs)})
+            if rng.random() < 0.5 or h == 1:
+                # the consumer edits the tree after the first table of a multi-item load: later items must be
+                # checked against the tree as it is when THEY are reached
+                mid = {slot: rng.choice(sorted(H_SLOTS[slot])) for slot in rng.sample(sorted(H_SLOTS), 2)}
+                order = list(specs) + ["/inner/a.csv"]
+                rng.shuffle(order)
+                calls.append({"roots": order + ["/inner/a.csv"], "mid_edit": mid})
+            script["steps"].append({"edits": edits, "calls": calls})
+        _exec_history(T, htables, {"level": "history", "seed": seed, "index": h, "script": script},
+                      out, ops, pend, model_ok)
+
+
+def _exec_history(T, htables, base_case, out, ops, pend, model_ok):
+    """run one history from its script alone"""
+    root = T + "/hroot"
+    script, h = base_case["script"], base_case.get("index", 0)
+    raising = script["raising"]
+    state = {}
+    for step, st in enumerate(script["steps"]):
+        for slot, val in st["edits"].items():
+            if state.get(slot) != val:
+                out.count(f"hist:edit:{slot}:{state.get(slot)}->{val}")
+            _set_slot(T, htables, slot, val)
+            state[slot] = val
+        for j, call in enumerate(st["calls"]):
+            roots, mid = call["roots"], call.get("mid_edit")
+            spec = roots[-1]                      # processed first
+            root_arg = root if (h + j) % 2 else Path(root)
+            fs = snapshot_fs(T, DECOYS)
+            world = snapshot_world(T) if (model_ok and not mid) else None
+            case = dict(base_case, step=step, load=j, tree=dict(state), roots=roots, spec=spec,
+                        raising_tracker=raising, mid_edit=mid,
+                        script={"raising": raising, "specs": script.get("specs"),
+                                "steps": script["steps"][:step] + [{"edits": st["edits"], "calls": st["calls"][:j + 1]}]})
+
+            def edit_now(mid=mid):
+                for slot, val in mid.items():
+                    _set_slot(T, htables, slot, val)
+                    state[slot] = val
+
+            end, events, got_tables, refused = impl_load(T, root_arg, roots, raising if not mid else False, None,
+                                                         edit_now if mid else None)
+            out.count("hist:" + ("mid:" if mid else "") + (end if isinstance(end, str) else end["exc"]))
+            out.case(case, nontrivial=step > 0 or bool(mid))
+            if mid:
+                # the tree changed during the call: only the access oracle (real path at access time) applies
+                _judge_load(out, case, T, root, spec, "unplantable", raising, end, events, got_tables, refused, htables)
+                continue
+            _judge_load(out, case, T, root, spec, None, raising, end, events, got_tables, refused, htables)
+            if model_ok:
+                ops.append({"op": "pathres_load", "root": str(root_arg), "roots": roots, "fs": fs, "world": world,
+                            "tracker_raises": raising, "loop_fuel": LOOP_FUEL})
+                pend.append(("load_files vs loadFiles after tree edits (end, open/listdir events in order)", case,
+                             {"end": end, "events": [[k, q] for k, q in events]},
+                             lambda a: {"end": a["end"],
+                                        "events": [e[:2] for e in a["trace"] if e[0] in ("open", "listdir")]}))
 
 
 def _shared_loader_dict_cases(T, tables, seed, n, ops, pend, out, model_ok):
@@ -1169,52 +1350,81 @@ def _shared_loader_dict_cases(T, tables, seed, n, ops, pend, out, model_ok):
                   T + "/project", T + "/PROJECT"]
     specs_pool = ["/m.csv", "/sub/n.csv", "/sub/m.csv", "/", "/sub", "/../m.csv", "/e.csv", "/a.csv", "/c.csv",
                   "file:/m.csv", "\\m.csv", "/../croot/m.csv", "/../sub/m.csv", "/p.csv", "/../project/p.csv", "/../Project/p.csv"]
-    fs = snapshot_fs(T, DECOYS)
-    world = snapshot_world(T) if model_ok else None
     for h in range(n):
         rng = make_rng(seed, f"C17:shared:{h}")
-        shared = {"mem": mem_loader([])}
         n_calls = rng.choice([2, 3])
         seq_roots = rng.sample(roots_pool, n_calls)
         if h == 0:
             seq_roots, n_calls = [T + "/croot", T + "/croot/sub"], 2
         spec = rng.choice(specs_pool) if h else "/m.csv"
-        raising = rng.random() < 0.25
+        calls = []
         for j, root in enumerate(seq_roots):
             call_spec = spec if rng.random() < 0.8 else rng.choice(specs_pool)
-            roots = [call_spec]
-            root_arg = root if (h + j) % 2 else Path(root)
-            keys_before = sorted(shared)
-            case = {"level": "shared-loaders", "seed": seed, "index": h, "call": j, "root": tok(root, T),
-                    "earlier_roots": [tok(r, T) for r in seq_roots[:j]], "roots": roots, "spec": call_spec,
-                    "raising_tracker": raising}
-            end, events, got_tables, refused = impl_load(T, root_arg, roots, raising, shared)
-            out.count("shared:" + (end if isinstance(end, str) else end["exc"]))
-            out.case(case, nontrivial=j > 0)
-            _judge_load(out, case, T, root, call_spec, None, raising, end, events, got_tables, refused, tables)
-            if sorted(shared) != keys_before:
-                out.count("shared:caller-dict-changed")
-            if model_ok:
-                ops.append({"op": "pathres_load", "root": str(root_arg), "roots": roots, "fs": fs, "world": world,
-                            "tracker_raises": raising, "loop_fuel": LOOP_FUEL})
-                pend.append(("load_files (shared protocol-loader dict, own root) vs loadFiles", case,
-                             {"end": end, "events": [[k, q] for k, q in events]},
-                             lambda a: {"end": a["end"],
-                                        "events": [e[:2] for e in a["trace"] if e[0] in ("open", "listdir")]}))
+            calls.append({"root": root, "roots": [call_spec], "root_as": "str" if (h + j) % 2 else "PosixPath"})
+        case = {"level": "shared-loaders", "seed": seed, "index": h, "raising_tracker": rng.random() < 0.25,
+                "calls": tok(calls, T)}
+        _exec_shared(T, tables, case, out, ops, pend, model_ok)
+
+
+def _exec_shared(T, tables, base_case, out, ops, pend, model_ok):
+    calls, raising = untok(base_case["calls"], T), base_case["raising_tracker"]
+    fs = snapshot_fs(T, DECOYS)
+    world = snapshot_world(T) if model_ok else None
+    shared = {"mem": mem_loader([])}
+    for j, call in enumerate(calls):
+        root, roots = call["root"], call["roots"]
+        root_arg = root if call["root_as"] == "str" else Path(root)
+        keys_before = sorted(shared)
+        case = dict(base_case, call=j, root=tok(root, T), roots=roots, spec=roots[-1],
+                    earlier_roots=[tok(c["root"], T) for c in calls[:j]], calls=tok(calls[:j + 1], T))
+        end, events, got_tables, refused = impl_load(T, root_arg, roots, raising, shared)
+        out.count("shared:" + (end if isinstance(end, str) else end["exc"]))
+        out.case(case, nontrivial=j > 0)
+        _judge_load(out, case, T, root, roots[-1], None, raising, end, events, got_tables, refused, tables)
+        if sorted(shared) != keys_before:
+            out.count("shared:caller-dict-changed")
+        if model_ok:
+            ops.append({"op": "pathres_load", "root": str(root_arg), "roots": roots, "fs": fs, "world": world,
+                        "tracker_raises": raising, "loop_fuel": LOOP_FUEL})
+            pend.append(("load_files (shared protocol-loader dict, own root) vs loadFiles", case,
+                         {"end": end, "events": [[k, q] for k, q in events]},
+                         lambda a: {"end": a["end"],
+                                    "events": [e[:2] for e in a["trace"] if e[0] in ("open", "listdir")]}))
 
 
 def replay(rep):
-    """cases are regenerated from (seed, level, index) alone (one PRNG per case; the scratch directory name
-    differs between runs, so specifications are not compared textually): re-run and look at the same case"""
-    seed = int(rep.get("seed", 0))
+    """FAITHFUL replay: the failing case's record (`input`) is executed again on a fresh scratch tree — the same
+    specification / files / roots / script of edits and calls — and judged by the same oracles, independent of
+    seed, tier and position in any stream.  (The scratch directory name differs between runs: records hold `$T`.)"""
     inp = rep.get("input") or {}
-    if "index" not in inp:
+    level = inp.get("level")
+    if level not in ("function", "api", "history", "shared-loaders"):
         return False, "replay file has no input (no-failing-input-found): " + str(rep.get("broken"))[:300]
-    quick_n = {"function": 4000, "api": 500, "history": 14, "shared-loaders": 14}.get(inp.get("level"), 0)
-    for tier in (("quick",) if inp["index"] < quick_n else ("thorough",)):
-        o = run(tier, seed, model_ok=False, translator=common.translate())
-        hit = [f for f in o.failures if f["input"].get("index") == inp["index"]
-               and f["input"].get("level") == inp.get("level")]
-        if hit:
-            return False, hit[0]["what"] + ": " + str(hit[0]["observed"])[:200]
+    if (level == "function" and "null_folder" not in inp) or (level == "api" and "x" not in inp) or \
+            (level == "history" and "script" not in inp) or (level == "shared-loaders" and "calls" not in inp):
+        return True, "record predates self-contained replay inputs: nothing to execute"
+    out = Outcome()
+    _install_hook()
+    import pdtable  # noqa
+    import pdtable.io.load._loaders  # noqa
+    old_cwd = os.getcwd()
+    T, tables = build_tree()
+    _AUDIT["prefix"] = T
+    _AUDIT["allow"] = _allow_list(T)
+    try:
+        if level == "function":
+            os.chdir(T)
+            _exec_function(T, None, inp, out, [], [], False)
+        elif level == "api":
+            _exec_api(T, tables, None, inp, out, [], [], False)
+        elif level == "history":
+            _exec_history(T, _history_setup(T), inp, out, [], [], False)
+        else:
+            _exec_shared(T, tables, inp, out, [], [], False)
+    finally:
+        os.chdir(old_cwd)
+        shutil.rmtree(T, ignore_errors=True)
+    if out.failures:
+        f = out.failures[0]
+        return False, f["what"] + ": " + str(f["observed"])[:200]
     return True, "property holds on this input"
